@@ -145,6 +145,8 @@ def run(ctx: Ctx):
         ctx.extract(x_tick.GEN_NAME, x_tick.emit)
         for mname, lname, _ in x_tick.ROOTS:   # tick path + life-cycle methods (round 7): one obligation per root method
             ctx.oblige(f"translate-tick:{mname}", "extractor", mname not in x_tick.FAILED, x_tick.FAILED.get(mname, ""))
+        for mname, lname, _ in x_tick.FTPC_ROOTS:   # the FTP client's tick and countdown-loading methods
+            ctx.oblige(f"translate-tick:ftpc:{mname}", "extractor", "ftpc:" + mname not in x_tick.FAILED, x_tick.FAILED.get("ftpc:" + mname, ""))
         ctx.prove(MODULES, exes=[EXE], clean=False, leanchecker=ctx.thorough)
     ctx.cov["rule"] = ("case = (number of clients 1..4, session limit, passwords, durations, ransomware presence, op sequence over "
                        "connect / handle+raw+native query / disconnect / forged+foreign ids / execute / uninstall+install / "
